@@ -412,6 +412,27 @@ pub fn wl_teardown(chan: usize) {
     }
 }
 
+/// The caller is about to wait WITHOUT a deadline and without returning to its executor (the untimed
+/// `wait()` of a timed operation whose cancellation failed, or the synchronous wait inside a future's
+/// `poll` / `drop`) for a peer that is assumed to have claimed this waiter. That assumption is what
+/// makes the wait bounded: a claimed waiter is no longer in the wait list and its claimant finishes the
+/// hand-off without needing anybody else. If the waiter is still listed nobody has claimed it, and the
+/// operation now depends on a peer that may never come (a timed call can no longer time out, a `poll`
+/// blocks its executor thread instead of returning `Pending`).
+pub fn unbounded_wait(sig: usize) {
+    let Some(e) = ex() else { return };
+    if e.abort.is_some() {
+        return;
+    }
+    let listed = e.mon.waitlists.iter().any(|(c, l)| l.contains(&sig) && !e.mon.teardown.contains(c));
+    if listed {
+        violation(
+            "wait/unclaimed",
+            "an operation entered its unbounded synchronous wait (after a failed cancellation, or inside poll/drop of a future) although its waiter is still in the channel's wait list: no peer has claimed it".to_string(),
+        );
+    }
+}
+
 pub fn wl_len(chan_index: usize) -> usize {
     ex().and_then(|e| e.mon.waitlists.get(chan_index).map(|(_, l)| l.len())).unwrap_or(0)
 }
